@@ -101,15 +101,16 @@ def rule_FR1(ctx, rep):
         labv, sizev = [norm(x) for x in st.targets[0].elts]
     else:
         raise AnalysisError('FR1: header unpack is not `label, size = unpack_from(...)`')
-    # loop guard
+    # loop guard: the number of buffered bytes established on the way to the header read inside the frame loop -- by the loop
+    # test (`while len(buf) >= c`), by an `if len(buf) >= c:` around it, or by an early exit `if len(buf) < c: break / return`
     loops = [a for a in ancestors(hdr, pm) if isinstance(a, ast.While)]
     if not loops:
         raise AnalysisError('FR1: header unpack is not inside the frame loop')
     lp = loops[0]
-    g = lp.test
-    lg = _len_guard(g, {'data', 'self.bytes'})
-    if lg is not None and const_int(lg[1]) is not None:
-        c = const_int(lg[1]) + (1 if lg[0] is ast.Gt else 0)
+    bounds = _established_len(rcv, hdr, pm, {'data', 'self.bytes'}, stop=lp)
+    consts = [(b.c, g) for b, g in bounds if b.is_const()]
+    if consts:
+        c, g = max(consts, key=lambda z: z[0])
         if c == hs:
             rep.ok('FR1', rcv, g, f'loop guard uses the header size {hs} = calcsize({f["rfmt"]!r})')
         else:
@@ -186,6 +187,47 @@ def _len_guard(test, bufnames):
             if type(op) in mirror:
                 return mirror[type(op)], l
     return None
+
+
+def _established_len(fn, node, pm, bufnames, stop=None):
+    """[(Lin lower bound on len(buffer), guard node)] established on every path to `node`, up to and including the loop `stop`:
+    tests of enclosing while / if statements and earlier early exits in the enclosing blocks."""
+    out = []
+
+    def lower(test, truth):
+        g = _len_guard(test, bufnames)
+        if g is None:
+            return
+        op, e = g
+        E = to_lin(e, opaque=False)
+        if E is None:
+            return
+        if truth and op in (ast.GtE, ast.Gt):
+            out.append((E + (1 if op is ast.Gt else 0), test))
+        if not truth and op in (ast.Lt, ast.LtE):
+            out.append((E + (1 if op is ast.LtE else 0), test))
+    child = node
+    for a in ancestors(node, pm):
+        if a is fn.node:
+            break
+        if isinstance(a, ast.While) and any(child is s_ for s_ in a.body):
+            lower(a.test, True)
+        elif isinstance(a, ast.If):
+            if any(child is s_ for s_ in a.body):
+                lower(a.test, True)
+            elif any(child is s_ for s_ in a.orelse):
+                lower(a.test, False)
+        for blk in astq._blocks(a):
+            if any(child is s_ for s_ in blk):
+                for s_ in blk:
+                    if s_ is child:
+                        break
+                    if isinstance(s_, ast.If) and not s_.orelse and s_.body and isinstance(s_.body[-1], (ast.Return, ast.Raise, ast.Continue, ast.Break)):
+                        lower(s_.test, False)
+        if a is stop:
+            break
+        child = a
+    return out
 
 
 def rule_FR2(ctx, rep):
@@ -496,14 +538,13 @@ def rule_FR5(ctx, rep):
     pm = parents(rcv.node)
     lp = [a for a in ancestors(f['hdr'], pm) if isinstance(a, ast.While)][0]
     g = lp.test
-    lg = _len_guard(g, {'data', 'self.bytes'})
-    admits = None
-    if lg is not None and const_int(lg[1]) is not None:
-        admits = const_int(lg[1]) + (1 if lg[0] is ast.Gt else 0) if lg[0] in (ast.Gt, ast.GtE) else None
+    # what is known about the buffer length where the header is read (loop test, enclosing `if`, early exits alike)
+    consts = [(b.c, gd) for b, gd in _established_len(rcv, f['hdr'], pm, {'data', 'self.bytes'}, stop=lp) if b.is_const()]
+    admits = max(c for c, _ in consts) if consts else None
     if admits is not None and admits <= f['hsize']:
         rep.ok('FR5', rcv, g, 'a buffer holding exactly one header (empty payload) enters the loop')
     else:
-        rep.bad('FR5', rcv, g, f'loop guard `{norm(g)}` does not admit a buffer of exactly {f["hsize"]} bytes: a frame with an empty '
+        rep.bad('FR5', rcv, g, f'the guard of the frame loop does not admit a buffer of exactly {f["hsize"]} bytes (it asks for {admits}): a frame with an empty '
                 'payload (or the last frame of a chunk) is not delivered until more data arrives')
     # early exits inside the loop (a bare return is as good as break when the local buffer name is
     # an alias of the persistent buffer, so that nothing is lost by skipping the store-back)
@@ -530,8 +571,11 @@ def rule_FR5(ctx, rep):
         if len(ifs) == 1 and ifs[0][1] == 'body':
             t = ifs[0][0].test
             lg2 = _len_guard(t, {'data', 'self.bytes'})
-            if lg2 is not None and lg2[0] is ast.Lt and frame is not None and to_lin(lg2[1], env, opaque=False) == frame:
+            need = to_lin(lg2[1], env, opaque=False) if lg2 is not None else None
+            if lg2 is not None and lg2[0] is ast.Lt and frame is not None and need == frame:
                 good = True
+            elif lg2 is not None and lg2[0] is ast.Lt and need is not None and need.is_const() and need.c <= f['hsize']:
+                good = True       # fewer bytes than one header: no complete frame can be buffered
         if good and (isinstance(e, ast.Break) or (isinstance(e, ast.Return) and e.value is None and bufalias0)):
             rep.ok('FR5', rcv, ifs[0][0].test, 'the loop is left only when fewer bytes than one complete frame are buffered')
         else:
@@ -746,21 +790,80 @@ def rule_HS1(ctx, rep):
         # writer: the keys are appended to the list that starts with the pid, sent in one writelines
         wl = calls_named(cm.node, 'writelines')
         okw = False
-        if len(wl) == 1 and wl[0].args and isinstance(wl[0].args[0], ast.Name):
-            L = wl[0].args[0].id
-            init = [v for _, v, how in definitions(cm.node, L) if how == 'assign' and isinstance(v, ast.List)]
-            par = pmc.get(id(wcall[0]))
-            appended = (isinstance(par, ast.Call) and attr_tail(par.func) == 'extend' and norm(par.func.value) == L) or \
-                (isinstance(par, ast.AugAssign) and isinstance(par.op, ast.Add) and norm(par.target) == L) or \
-                (isinstance(par, ast.BinOp) and isinstance(par.op, ast.Add) and norm(par.left) == L)
-            okw = bool(init) and len(init[0].elts) == 1 and any(c is tb[0] for c in ast.walk(init[0].elts[0])) and appended \
-                and astq.position(wcall[0]) < astq.position(wl[0])
+        if len(wl) == 1 and wl[0].args:
+            # every list the handshake can consist of, with its condition: display, concatenation, `*keys`, extend / += alike
+            alts = _list_alternatives(cm, wl[0].args[0], wl[0], pmc)
+            okw = bool(alts)
+            for fa, items in alts:
+                want_pid, want_keys = norm(routes.xp(cm, tb[0], tb[0], pmc)), norm(routes.xp(cm, wcall[0], wcall[0], pmc))
+                is_pid = bool(items) and items[0][0] == 'elt' and any(isinstance(c, ast.Call) and norm(c) == want_pid
+                                                                     for c in ast.walk(routes.xp(cm, items[0][1], wl[0], pmc)))
+                with_keys = cond.satisfiable(cond.conj([fa, gwr]))
+                without = cond.satisfiable(cond.conj([fa, cond.neg(gwr)]))
+                keys = len(items) == 2 and items[1][0] == 'splice' and any(isinstance(c, ast.Call) and norm(c) == want_keys for c in ast.walk(routes.xp(cm, items[1][1], wl[0], pmc)))
+                if not is_pid or (with_keys and not keys) or (without and not with_keys and len(items) != 1) or (with_keys and without):
+                    okw = False
         if okw:
             rep.ok('HS1', cm, wcall[0], 'pid followed by the keys, in enumeration order')
         else:
             rep.bad('HS1', cm, wcall[0], 'the keys are not appended after the pid in one handshake')
     else:
         raise AnalysisError('HS1: handshake calls (_prss_keys_to_peer x1, _prss_keys_from_peer x2) not found')
+
+
+def _list_alternatives(fn, e, use, pm):
+    """[(formula, items)]: the lists expression e can denote at `use`, each as its sequence of items ('elt', node) / ('splice', node)
+    with the condition under which it is that list.  Follows value cases of a name, displays (with `*x`), concatenations
+    (`+`, `+=`) and the `append` / `extend` calls between a definition and the use."""
+    from . import cond
+
+    def flat(v):
+        if isinstance(v, (ast.List, ast.Tuple)):
+            return [('splice', x.value) if isinstance(x, ast.Starred) else ('elt', x) for x in v.elts]
+        if isinstance(v, ast.BinOp) and isinstance(v.op, ast.Add):
+            a, b = flat(v.left), flat(v.right)
+            return None if a is None or b is None else a + b
+        if isinstance(v, ast.Call) and isinstance(v.func, ast.Name) and v.func.id in ('list', 'tuple') and len(v.args) == 1:
+            return [('splice', v.args[0])]
+        if isinstance(v, (ast.Name, ast.Call, ast.Attribute, ast.Subscript)):
+            return [('splice', v)]
+        return None
+    if not isinstance(e, ast.Name):
+        items = flat(e)
+        return [(cond.TRUE, items)] if items is not None else []
+    alts = []
+    for f, v, st in cond.value_cases(fn, e, use, pm):
+        if isinstance(v, ast.Name) and v.id == e.id:
+            return []
+        items = flat(v)
+        if items is None:
+            return []
+        alts.append((f, items, st))
+    muts = []
+    for c in iter_nodes(fn.node):
+        if isinstance(c, ast.Call) and isinstance(c.func, ast.Attribute) and isinstance(c.func.value, ast.Name) and c.func.value.id == e.id \
+                and c.func.attr in ('append', 'extend', 'insert', 'pop', 'remove', 'clear', 'sort', 'reverse') and astq.position(c) < astq.position(use):
+            muts.append(c)
+    muts.sort(key=astq.position)
+    out = []
+    for f, items, st in alts:
+        cur = [(f, items)]
+        for m_ in muts:
+            if astq.position(m_) < astq.position(st):
+                continue
+            if m_.func.attr not in ('append', 'extend') or len(m_.args) != 1:
+                return []
+            cm_ = cond.context(fn, m_, pm)
+            nxt = []
+            for g, its in cur:
+                yes, no = cond.conj([g, cm_]), cond.conj([g, cond.neg(cm_)])
+                if cond.satisfiable(yes):
+                    nxt.append((yes, its + [('elt' if m_.func.attr == 'append' else 'splice', m_.args[0])]))
+                if cond.satisfiable(no):
+                    nxt.append((no, its))
+            cur = nxt
+        out += cur
+    return out
 
 
 # ------------------------------------------------------------------------------------------ KEY1
@@ -942,6 +1045,41 @@ def rule_CR2(ctx, rep):
         raise AnalysisError('CR2: no completion of receive Futures found in MessageExchanger')
 
 
+def _list_size(fn, e, use, pm, depth=0):
+    """canonical text for the number of elements of list expression e at `use` (None when two zipped lists may differ in length)"""
+    from . import routes
+    if depth > 6:
+        return cnorm(e)
+    if isinstance(e, ast.Name):
+        ds = [d for d in astq.reaching_definitions(fn.node, e.id, use, pm) if d[0] is not use]
+        if len(ds) == 1 and ds[0][1] is not None and ds[0][2] == 'assign':
+            v = ds[0][1]
+            if isinstance(v, ast.Await) and isinstance(v.value, ast.Call) and attr_tail(v.value.func) == 'gather' and len(v.value.args) == 1:
+                return _list_size(fn, v.value.args[0], ds[0][0], pm, depth + 1)       # gather keeps the length
+            return _list_size(fn, v, ds[0][0], pm, depth + 1)
+        return cnorm(e)
+    if isinstance(e, ast.Call) and isinstance(e.func, ast.Name) and e.func.id in ('list', 'tuple', 'sorted', 'reversed') and len(e.args) == 1:
+        return _list_size(fn, e.args[0], use, pm, depth + 1)
+    if isinstance(e, (ast.ListComp, ast.GeneratorExp)) and len(e.generators) == 1 and not e.generators[0].ifs:
+        g = e.generators[0]
+        bb = routes.binder_of(fn, g.target, g.iter, use, pm, use)
+        return _binder_size(fn, bb, pm, depth + 1, use) if bb is not None else None
+    return cnorm(routes.xp(fn, e, use, pm))
+
+
+def _binder_size(fn, b, pm, depth=0, use=None):
+    """canonical text for the number of iterations of binder b"""
+    use = use if use is not None else b.node
+    if b.kind == 'range':
+        return repr(b.hi - b.lo + 1)
+    if b.kind in ('iter', 'enum') and b.src is not None:
+        return _list_size(fn, b.src, use, pm, depth + 1)
+    if b.kind == 'zip':
+        sizes = {_list_size(fn, s_, use, pm, depth + 1) for s_ in b.srcs}
+        return sizes.pop() if len(sizes) == 1 else None
+    return None
+
+
 def rule_CR3(ctx, rep):
     """output needs all t foreign shares: recombination is dominated by the await of all of them."""
     from . import rules_rt, routes
@@ -970,19 +1108,8 @@ def rule_CR3(ctx, rep):
         if len(b_p) != 1 or len(b_r) != 1 or [g for g in g_p if any(isinstance(x, ast.Name) and x.id in b_p[0].names() for x in ast.walk(g[0]))]:
             ok1 = False
             continue
-        def size(b):
-            if b.kind == 'range':
-                return repr(b.hi - b.lo)
-            return cnorm(routes.xp(fn, b.src, b.node, pm))
-        def size2(b):
-            # enumerate([.. for j in range(t)]) has as many elements as range(t)
-            src = routes.xp(fn, b.src, b.node, pm) if b.kind != 'range' else None
-            if isinstance(src, ast.ListComp) and len(src.generators) == 1 and not src.generators[0].ifs:
-                bb = routes.binder_of(fn, src.generators[0].target, src.generators[0].iter, b.node, pm, b.node)
-                if bb is not None and bb.kind == 'range':
-                    return repr(bb.hi - bb.lo)
-            return size(b)
-        if size2(b_p[0]) != size2(b_r[0]):
+        sp, sr = _binder_size(fn, b_p[0], pm), _binder_size(fn, b_r[0], pm)
+        if sp is None or sr is None or sp != sr:
             ok1 = False
     comp_site = foreign[0]
     if ok1:
@@ -996,7 +1123,17 @@ def rule_CR3(ctx, rep):
           and attr_tail(s_.value.value.func) == 'gather' and lv and any(norm(a) == lv for a in s_.value.value.args)]
     pst = astq.enclosing_stmt(foreign[0], pm)
     awname = aw[0].targets[0].id if aw and isinstance(aw[0].targets[0], ast.Name) else ''
-    if aw and astq.position(st) < astq.position(aw[0]) < astq.position(pst) and any(mentions_name(t, awname) for t in foreign):
+    def reads_awaited(t):
+        """does the point tuple take its share from the awaited list -- by index, or as the element enumerated / zipped from it"""
+        if mentions_name(t, awname):
+            return True
+        for b in routes._context(fn, t, pm)[0]:
+            for nm in b.names():
+                src = b.src_of(nm)
+                if src is not None and mentions_name(t, nm) and mentions_name(src, awname):
+                    return True
+        return False
+    if aw and astq.position(st) < astq.position(aw[0]) < astq.position(pst) and any(reads_awaited(t) for t in foreign):
         rep.ok('CR3', fn, aw[0], 'all requested shares are awaited before recombination')
     else:
         rep.bad('CR3', fn, rec[0], 'recombination is not preceded by an await of all requested shares')
